@@ -694,6 +694,14 @@ func Sub(a, b *Expr) *Expr {
 	if a.Op == OpAdd && a.A == b && a.B.IsConst() {
 		return a.B
 	}
+	// (x + c2) - (x + c1)
+	if a.Op == OpAdd && b.Op == OpAdd && a.A == b.A && a.B.IsConst() && b.B.IsConst() {
+		return Const(a.W, a.B.K-b.B.K)
+	}
+	// x - (x + c)
+	if b.Op == OpAdd && b.A == a && b.B.IsConst() {
+		return Const(a.W, -b.B.K)
+	}
 	return bin(OpSub, a, b)
 }
 
